@@ -9,6 +9,8 @@ agreement itself is one string-free lemma (`conv_eq_simple`) instantiated with t
 -/
 import DdsModel.Proofs.EncCarrierScalar
 import DdsModel.Proofs.EncCarrier16
+import DdsModel.Proofs.ConvFloat
+import DdsModel.Proofs.ConvF16All
 namespace Dds.EncCarrier
 open Dds Dds.CF32 Dds.Conv Dds.Quant Dds.EncTotal
 set_option maxRecDepth 100000
@@ -165,6 +167,14 @@ theorem conv_eq_simple (p : Prec) (F : Nat → Nat) (n : Nat) (sn : Bool) (qk : 
         simp [convCodes, convertChannels, layout, simple, mapS, elem, Src.get, toRgba, Pix.map, Pix.vals, swapRB,
           normOne, normZero, er, eg, eb, ea, q1, q0]
 
+/-! ### the F32 carrier of the oracle: the nearest binary32 to `v/255`, `w/65535` (C04) -/
+
+theorem n8f32_nearest (v : Nat) (hv : v < 256) : n8f32 v = roundF32 (Spec.unorm 8 v) := by
+  simpa [Dds.ConvProofs.okF32] using Dds.ConvProofs.n8f32_ok v hv
+
+theorem n16f32_nearest (w : Nat) (hw : w < 65536) : n16f32 w = roundF32 (Spec.unorm 16 w) :=
+  Dds.ConvFast.n16f32_all w hw
+
 /-! ### `as_rgba_f32` does not depend on the carrier -/
 
 theorem chan_map (f : Nat → Nat) (px : Pix) : (px.map f).chan = px.chan := by cases px <;> rfl
@@ -301,6 +311,59 @@ theorem pixelCodes_eq_uni (Q : Ext) (name : String) (p : Prec) (px : Pix) (hok :
     exact conv_eq_simple p (toF32 p) (precBound p) sn _ (qk_spec p sn h2) (toF32_one p) (toF32_zero p)
       (normOne_lt p) (precBound_pos p) t sw x8 h1 px hpx
 
+theorem below_map (f : Nat → Nat) (n m : Nat) (h : ∀ x, x < n → f x < m) (px : Pix) (hpx : px.below n) :
+    (px.map f).below m := by
+  cases px with
+  | gray g => exact h g hpx
+  | alpha a => exact h a hpx
+  | rgb r g b => exact ⟨h r hpx.1, h g hpx.2.1, h b hpx.2.2⟩
+  | rgba r g b a => exact ⟨h r hpx.1, h g hpx.2.1, h b hpx.2.2.1, h a hpx.2.2.2⟩
+
+/-- the normal form for every plain format and every colour format -/
+theorem pixelCodes_normal (Q : Ext) (name : String) (hn : name ∈ plainNames) (p : Prec) (px : Pix)
+    (hpx : px.below (precBound p)) : pixelCodes Q name p px = uni Q name (asRgbaF32 p px) :=
+  pixelCodes_eq_uni Q name p px (pathOk_all name hn p px.chan) hpx
+
+/-- 8-bit values: the U16 (`257·v`) and F32 (`n8::f32 v`) carriers store what the U8 carrier stores -/
+theorem codes_u8 (Q : Ext) (name : String) (hn : name ∈ plainNames) (px : Pix) (hpx : px.below 256) :
+    pixelCodes Q name .u16 (px.map n8_n16) = pixelCodes Q name .u8 px ∧
+    pixelCodes Q name .f32 (px.map n8f32) = pixelCodes Q name .u8 px := by
+  have b16 : (px.map n8_n16).below (precBound .u16) :=
+    below_map _ 256 65536 (fun x hx => by unfold n8_n16; omega) px hpx
+  have b32 : (px.map n8f32).below (precBound .f32) := below_map _ 256 (2 ^ 32) n8f32_lt px hpx
+  rw [pixelCodes_normal Q name hn .u16 _ b16, pixelCodes_normal Q name hn .f32 _ b32,
+    pixelCodes_normal Q name hn .u8 px hpx, asRgba_f32_of_u8]
+  have e : px.map n8_n16 = px.map (· * 257) := rfl
+  rw [e, asRgba_u16_of_u8 px hpx]
+  exact ⟨rfl, rfl⟩
+
+/-- 16-bit values: the F32 carrier (`n16::f32 w`) stores what the U16 carrier stores -/
+theorem codes_u16 (Q : Ext) (name : String) (hn : name ∈ plainNames) (px : Pix) (hpx : px.below 65536) :
+    pixelCodes Q name .f32 (px.map n16f32) = pixelCodes Q name .u16 px := by
+  have b32 : (px.map n16f32).below (precBound .f32) := below_map _ 65536 (2 ^ 32) n16f32_lt px hpx
+  rw [pixelCodes_normal Q name hn .f32 _ b32, pixelCodes_normal Q name hn .u16 px hpx, asRgba_f32_of_u16]
+
+theorem normOne_lt' (p : Prec) : normOne p < precBound p := normOne_lt p
+
+/-- the same colour in a wider channel layout stores the same elements -/
+theorem codes_channels (Q : Ext) (name : String) (hn : name ∈ plainNames) (p : Prec) (r g b a : Nat)
+    (hr : r < precBound p) (hg : g < precBound p) (hb : b < precBound p) (ha : a < precBound p) :
+    pixelCodes Q name p (.rgb g g g) = pixelCodes Q name p (.gray g) ∧
+    pixelCodes Q name p (.rgba g g g (normOne p)) = pixelCodes Q name p (.gray g) ∧
+    pixelCodes Q name p (.rgba r g b (normOne p)) = pixelCodes Q name p (.rgb r g b) ∧
+    pixelCodes Q name p (.rgba 0 0 0 a) = pixelCodes Q name p (.alpha a) := by
+  have h1 := normOne_lt p
+  have h0 := precBound_pos p
+  rw [pixelCodes_normal Q name hn p (.rgb g g g) ⟨hg, hg, hg⟩,
+    pixelCodes_normal Q name hn p (.gray g) hg,
+    pixelCodes_normal Q name hn p (.rgba g g g (normOne p)) ⟨hg, hg, hg, h1⟩,
+    pixelCodes_normal Q name hn p (.rgba r g b (normOne p)) ⟨hr, hg, hb, h1⟩,
+    pixelCodes_normal Q name hn p (.rgb r g b) ⟨hr, hg, hb⟩,
+    pixelCodes_normal Q name hn p (.rgba 0 0 0 a) ⟨h0, h0, h0, ha⟩,
+    pixelCodes_normal Q name hn p (.alpha a) ha,
+    asRgba_gray_rgb, asRgba_gray_rgba, asRgba_rgb_rgba, asRgba_alpha_rgba]
+  exact ⟨rfl, rfl, rfl, rfl⟩
+
 /-! ### sub-sampled and bi-planar formats: universal encoders only -/
 
 theorem block_uni_table : (blockNames.all fun name => [Prec.u8, .u16, .f32].all fun p =>
@@ -313,5 +376,26 @@ theorem blockCodes_eq_uni (Q : Ext) (name : String) (h : name ∈ blockNames) (p
   have h3 := of_decide_eq_true (List.all_eq_true.mp h2 ch (by cases ch <;> simp))
   unfold blockCodes
   rw [h3]
+
+theorem map_asRgba_u16_of_u8 (pxs : List Pix) (h : ∀ px ∈ pxs, px.below 256) :
+    (pxs.map (Pix.map n8_n16)).map (asRgbaF32 .u16) = pxs.map (asRgbaF32 .u8) := by
+  rw [List.map_map]
+  apply List.map_congr_left
+  intro px hm
+  exact asRgba_u16_of_u8 px (h px hm)
+
+theorem map_asRgba_f32_of_u8 (pxs : List Pix) :
+    (pxs.map (Pix.map n8f32)).map (asRgbaF32 .f32) = pxs.map (asRgbaF32 .u8) := by
+  rw [List.map_map]
+  apply List.map_congr_left
+  intro px _
+  exact asRgba_f32_of_u8 px
+
+theorem map_asRgba_f32_of_u16 (pxs : List Pix) :
+    (pxs.map (Pix.map n16f32)).map (asRgbaF32 .f32) = pxs.map (asRgbaF32 .u16) := by
+  rw [List.map_map]
+  apply List.map_congr_left
+  intro px _
+  exact asRgba_f32_of_u16 px
 
 end Dds.EncCarrier
